@@ -159,6 +159,21 @@ def decFired (s : DS) (f : String) : Option (List Fired) :=
       | _, _ => none
     | _, _ => none) (some [])
 
+def decProv (f : String) : Option Provider :=
+  match f.toList with
+  | ['a'] => some .absent
+  | ['x'] => some .raises
+  | 'c' :: rest =>
+    if rest.isEmpty then some (.content []) else
+    ((String.ofList rest).splitOn ";").foldr (fun p acc => match acc, decStr p with
+      | some xs, some l => some (l :: xs)
+      | _, _ => none) (some []) |>.map .content
+  | _ => none
+
+def decBranch (f : String) : Option BranchProv :=
+  if f = "a" then some .absent else if f = "x" then some .raises
+  else if f = "d1" then some (.data true) else if f = "d0" then some (.data false) else none
+
 def jtop : Top → String
   | .val v => jobj [("val", jval v)]
   | .system md => jobj [("system", match md with | some d => jdict d | none => "null")]
@@ -234,6 +249,21 @@ def handleLine (s : DS) (fs : List String) : DS × String :=
     match s.h with
     | some h => (s, jstateH h.st)
     | none => (s, "bad-op")
+  | ["irun", m, rl, b, order] =>
+    match decProv m, decProv rl, decBranch b, decNats order with
+    | some m, some rl, some b, some order =>
+      let rs := order.filterMap (fun i => s.rules.find? (fun r => r.id = i))
+      if rs.length ≠ s.rules.length ∨ order.length ≠ s.rules.length then (s, "bad-op") else
+      let s := { s with rules := rs }
+      let env := mkEnv s
+      let is := runI env ⟨m, rl, b⟩ s.seeds rs
+      let st := { is.st with metadata := is.metadata }
+      ({ s with st := some st },
+       jobj [("state", jstateH st),
+             ("deco", jobj [("system_id", match is.systemId with | some v => jstr v | none => "null"),
+                            ("release", match is.release with | some v => jstr v | none => "null"),
+                            ("branch", if is.branchLoaded then "true" else "false")])])
+    | _, _, _, _ => (s, "bad-op")
   | ["reprlen", d] =>
     match decDict d with
     | some d => (s, toString (reprDict d).length)
